@@ -128,13 +128,13 @@ Arguments status_spec {T}. Arguments union_le {T}. Arguments finite {T}. Argumen
 Local Open Scope Z_scope.
 (* a rational in lowest terms with positive denominator (what mpq_t / the value kinds hold) *)
 Definition xq_ok (x : xq) : Prop :=
-  match x with XFin q => 0 < snd q /\ Z.gcd (fst q) (snd q) = 1 | _ => True end.
-Definition xq_finite (x : xq) : Prop := match x with XFin _ => True | _ => False end.
+  match x with XQFin q => 0 < snd q /\ Z.gcd (fst q) (snd q) = 1 | _ => True end.
+Definition xq_finite (x : xq) : Prop := match x with XQFin _ => True | _ => False end.
 (* well-formed interval with canonical end points; a point is a finite number *)
 Definition WFx (X : itv xq) : Prop :=
   WF xq_cmp X /\ xq_ok (ia X) /\ xq_ok (ib X) /\ (ipt X = true -> xq_finite (ia X)).
 (* the integer z as a carrier value *)
-Definition zq (z : Z) : xq := XFin (z, 1).
+Definition zq (z : Z) : xq := XQFin (z, 1).
 Definition int_mem (z : Z) (X : itv xq) : Prop := mem xq_cmp (zq z) X.
 Definition int_mem_set (z : Z) (s : list (itv xq)) : Prop := mem_set xq_cmp (zq z) s.
 (* the sum of the per-interval integer counts *)
